@@ -151,6 +151,15 @@ def dispatch_rule(rep: Report, rule: str, fwd: FuncInfo, batched_marker) -> Opti
         return None
     in_body, in_else = batched_marker(disp.body), batched_marker(else_arm)
     if in_body == in_else:
+        # the whole-tensor arm is the one that hands `x` itself to the single-item routine
+        def whole(arm):
+            return any(isinstance(c, ast.Call) and attr_chain(c.func) == "self._apply_constraint_to_single_item" and c.args and unparse(c.args[0]) == "x" for s_ in arm for c in ast.walk(s_))
+
+        wb, we = whole(disp.body), whole(else_arm)
+        if wb != we:
+            in_body, in_else = we, wb
+    disp._kv_batched_truth = bool(in_body)
+    if in_body == in_else:
         rep.undecided(rule, fwd, f"batch dispatch: {unparse(disp.test)}", "cannot tell the per-item arm from the whole-tensor arm", node=disp)
         return disp
     bad, und = [], []
@@ -192,11 +201,14 @@ def analyse_power_class(repo: Repo, rep: Report, cname: str, attr: str, factor_a
     cur = (E / N) if average else E
     constpow = ONE if average else N
     # dispatch test
-    disp = dispatch_rule(rep, "POWER-LAW", fwd, batched_marker=lambda b: any(isinstance(c, ast.Call) and call_name(c) in ("torch.sum", "torch.mean") and any(k.arg == "dim" for k in c.keywords) for s_ in b for c in ast.walk(s_)))
+    disp = dispatch_rule(rep, "POWER-LAW", fwd, batched_marker=lambda b: any(isinstance(c, ast.Call) and (call_name(c) or "").split(".")[-1] in ("sum", "mean") and any(k.arg == "dim" for k in c.keywords) for s_ in b for c in ast.walk(s_)))
     n += 1
+    # the "some item is all-zero" test of the batched path, in whatever spelling: `if torch.any(m):` / `if m.any():`
+    zero_tests = [unparse(s_.test) for s_ in ast.walk(fwd.node) if isinstance(s_, ast.If) and s_ is not disp and isinstance(s_.test, ast.Call) and (call_name(s_.test) or "").split(".")[-1] == "any"]
+    zero_atom = zero_tests[0] if len(zero_tests) == 1 else "torch.any(zero_mask)"
     for cplx in (False, True):
         for zero in (False, True):
-            atoms = {(unparse(disp.test) if disp is not None else "x.dim() > 1 and x.shape[0] > 1"): True, "torch.is_complex(x)": cplx, "torch.any(zero_mask)": zero}
+            atoms = {(unparse(disp.test) if disp is not None else "x.dim() > 1 and x.shape[0] > 1"): getattr(disp, "_kv_batched_truth", True), "torch.is_complex(x)": cplx, zero_atom: zero}
             it = CBScaling(fwd, repo, cls=ci, config=cfg(atoms), attr_values=attrs)
             it.run({"x": SV("sig", ONE), "args": NONE_V, "kwargs": NONE_V})
             for v, r, _ in it.returns:
